@@ -287,12 +287,12 @@ def run_ob_inprocess(ob):
     print('OBRESULT ' + json.dumps(r, default=str))
 
 
-def do_replay(prop, ob, inputs):
+def do_replay(prop, ob, inputs, tier='thorough'):
     """Run ob.replay in a plain process (no CrossHair tracing); returns (reproduces, what)."""
     os.makedirs(os.path.join(HOME, 'replays'), exist_ok=True)
     path = os.path.join(HOME, 'replays', '%s_%s.json' % (prop, re.sub(r'[^A-Za-z0-9_.-]', '_', ob.name)))
     with open(path, 'w') as f:
-        json.dump(dict(property=prop, obligation=ob.name, inputs=inputs), f, indent=1, default=repr)
+        json.dump(dict(property=prop, obligation=ob.name, tier=tier, inputs=inputs), f, indent=1, default=repr)
     p = subprocess.run([PY, '-B', os.path.join(HOME, 'engine', 'main.py'), prop, '--replay', path],
                        capture_output=True, text=True, timeout=600, cwd=HOME)
     what = ''
@@ -410,7 +410,7 @@ def run_check(prop, module, tier, seed):
             model = r.get('model', {})
             rep, what, path = (None, 'no replay function', None)
             if o.replay is not None:
-                rep, what, path = do_replay(prop, o, model)
+                rep, what, path = do_replay(prop, o, model, tier)
             if rep is True:
                 key = None
                 if o.classify is not None:
